@@ -178,7 +178,8 @@ struct SelfArgComma<'g>(&'g ImplIndirection<'g>, Span);
 
 impl quote::ToTokens for SelfArgComma<'_> {
     fn to_tokens(&self, stream: &mut TokenStream) {
-        let span = self.1;
+        // resolved at the call site, like the receivers they refer to (see `gen_self_receiver`)
+        let span = Span::call_site().located_at(self.1);
         match &self.0 {
             ImplIndirection::None => {
                 push_tokens!(stream, syn::token::SelfValue(span), syn::token::Comma(span));
